@@ -6,7 +6,7 @@ from parmap_common import MapIterSpec, MapStreamSpec
 PROP_FILES = ["C14"]
 
 
-SPECS = {"scale": (ScaleSpec(['mapiter']), "harness", "runner"), "mapiter": (MapIterSpec(), "harness_parmap", "runner-parmap"), "mapstream": (MapStreamSpec(), "harness_parmap", "runner-parmap")}
+SPECS = {"scale": (ScaleSpec(['mapiter', 'mapstream-close-busy', 'mapstream-ferr-storm']), "harness", "runner"), "mapiter": (MapIterSpec(), "harness_parmap", "runner-parmap"), "mapstream": (MapStreamSpec(), "harness_parmap", "runner-parmap")}
 
 
 def run(ctx):
@@ -17,10 +17,16 @@ def run(ctx):
                       {"build_output": out[-4000:]}, failing_input=False)
         return ctx.finish()
     vlib.seq_differential(ctx, MapIterSpec(), exe, proofs_ok, tag="mapiter")
+    if ctx.tier == "thorough":
+        vlib.patience_part(ctx, MapIterSpec(), exe, proofs_ok, tag="mapiter")
     vlib.seq_differential(ctx, MapStreamSpec(), exe, proofs_ok, tag="mapstream")
+    if ctx.tier == "thorough":
+        vlib.patience_part(ctx, MapStreamSpec(), exe, proofs_ok, tag="mapstream")
     okS, outS, exeS = vlib.build_runner()
     if okS:
-        vlib.seq_differential(ctx, ScaleSpec(['mapiter']), exeS, proofs_ok, tag="scale")
+        vlib.seq_differential(ctx, ScaleSpec(['mapiter', 'mapstream-close-busy', 'mapstream-ferr-storm']), exeS, proofs_ok, tag="scale")
+    else:
+        ctx.violation("harness-build", "the harness does not build against the current tree: " + outS[-1500:], {"build_output": outS[-4000:]}, failing_input=False)
     vlib.merge_parts(ctx, "cases = controller scripts (request Next/Close calls, release the gates of f and of the source in orders in which "
                      "late items finish first, cancel the caller's / the per-call contexts, quiesce) run against the real MapIterator and "
                      "MapStream; each recorded history must be accepted by the LTS model (some schedule produces it and every quiescence "
